@@ -11,6 +11,7 @@
 //                      no sound fingerprint -> key_mode() == 2 and the BFS keys on the symbol history (no merging on
 //                      hidden state, depth-bounded).
 #include "gs_iface.hpp"
+#include <cstdlib>
 #include <cstring>
 #include <igris/protocols/gstuff.h>
 #include <type_traits>
@@ -26,6 +27,18 @@ namespace gs
                        (uint8_t)c.GSTUFF_STUB_START, (uint8_t)c.GSTUFF_STUB_STOP, (uint8_t)c.GSTUFF_STUB_STUB};
     }
 
+    static gstuff_context ctx_from(const Markers &m)
+    {
+        gstuff_context c;
+        c.GSTUFF_START = (char)m.start;
+        c.GSTUFF_STOP = (char)m.stop;
+        c.GSTUFF_STUB = (char)m.stub;
+        c.GSTUFF_STUB_START = (char)m.c_start;
+        c.GSTUFF_STUB_STOP = (char)m.c_stop;
+        c.GSTUFF_STUB_STUB = (char)m.c_stub;
+        return c;
+    }
+
     struct CfgReceiver : Receiver
     {
         gstuff_autorecv r;
@@ -33,6 +46,7 @@ namespace gs
         int cap_;
         Markers M_;
         CfgReceiver(int codec, uint8_t *buf, int cap) : r(ctx_of(codec)), buf_(buf), cap_(cap), M_(cfg_markers(codec)) { r.init(buf, cap); }
+        CfgReceiver(const Markers &m, uint8_t *buf, int cap) : r(ctx_from(m)), buf_(buf), cap_(cap), M_(m) { r.init(buf, cap); }
         static Status norm(int st)
         {
             switch (st)
@@ -181,6 +195,57 @@ namespace gs
 #endif
     }
     Receiver *make_cfg_receiver(int codec, uint8_t *buf, int cap) { return new CfgReceiver(codec, buf, cap); }
+    Receiver *make_receiver_markers(const Markers &m, uint8_t *buf, int cap) { return new CfgReceiver(m, buf, cap); }
+
+    // ---- one context object, many alphabets ----
+    static std::vector<uint8_t> encode_through(const gstuff_context &ctx, int entry, const uint8_t *data, size_t n, size_t split)
+    {
+        // exactly sized heap blocks for input pieces and raw output (ASan)
+        uint8_t *a = (uint8_t *)malloc(split), *b = (uint8_t *)malloc(n - split), *w = (uint8_t *)malloc(n);
+        if (split)
+            memcpy(a, data, split);
+        if (n - split)
+            memcpy(b, data + split, n - split);
+        if (n)
+            memcpy(w, data, n);
+        struct iovec v[2] = {{a, split}, {b, n - split}};
+        std::vector<uint8_t> f;
+        if (entry == RAW || entry == RAW_V)
+        {
+            uint8_t *out = (uint8_t *)malloc(2 * n + 4);
+            int ret = entry == RAW ? gstuffing((const char *)w, n, (char *)out, ctx) : gstuffing_v(v, 2, (char *)out, ctx);
+            if (ret > 0 && (size_t)ret <= 2 * n + 4)
+                f.assign(out, out + ret);
+            free(out);
+        }
+        else if (entry == VEC)
+            f = gstuffing(igris::buffer((const void *)w, n), ctx);
+        else
+            f = gstuffing_v(v, 2, ctx);
+        free(a), free(b), free(w);
+        return f;
+    }
+    static gstuff_context g_shared_ctx;          // THE object that is reassigned
+    static gstuff_context g_flush_ctx = ctx_from(Markers{0xF1, 0xF2, 0xF3, 0xE1, 0xE2, 0xE3});
+    void ctx_flush()
+    {
+        char in = 0x55, out[8];
+        gstuffing(&in, 1, out, g_flush_ctx);
+    }
+    __attribute__((noinline)) static std::vector<uint8_t> by_value_helper(gstuff_context ctx, int entry, const uint8_t *data, size_t n,
+                                                                           size_t split)
+    {
+        return encode_through(ctx, entry, data, n, split);
+    }
+    std::vector<uint8_t> encode_ctx(const Markers &m, int how, int entry, const uint8_t *data, size_t n, size_t split)
+    {
+        if (how == SAME_OBJECT_REASSIGNED)
+        {
+            g_shared_ctx = ctx_from(m);
+            return encode_through(g_shared_ctx, entry, data, n, split);
+        }
+        return by_value_helper(ctx_from(m), entry, data, n, split);
+    }
 
     int cfg_encode_raw(int codec, const uint8_t *data, size_t n, uint8_t *out)
     {
